@@ -18,6 +18,7 @@ import SvgVerif.Model.TransformParse
 import SvgVerif.Spec.Shapes
 import SvgVerif.Model.Doc
 import SvgVerif.Model.Intersect
+import SvgVerif.Model.ArcParam
 /-! Correspondence driver: one operation per input line, one canonical result per
 output line.  Run as `lake env lean --run Driver.lean < ops.txt`.  The Python
 harness feeds the same operations to the real svgpathtools code and diffs. -/
@@ -616,6 +617,26 @@ def runPathInt (args : List String) : String :=
     | _, _, _, _, _, _ => "bad-args"
   | _ => "bad-args"
 
+/-! C04: Arc._parameterize on exact rationals; `sqrt` exact where rational else (x+1)/2, `degrees(acos x)` := 90(1-x) -/
+def sqrtStandin (q : Rat) : Rat :=
+  if q < 0 then (q + 1) / 2 else
+    let n := q.num.toNat
+    let d := q.den
+    let rn := Nat.sqrt n
+    let rd := Nat.sqrt d
+    if rn * rn = n ∧ rd * rd = d then (rn : Rat) / (rd : Rat) else (q + 1) / 2
+
+def runArcParam (args : List String) : String :=
+  match args with
+  | [sx, sy, ex, ey, rx, ry, wx, wy, la, sw] =>
+    match parseRats? [sx, sy, ex, ey, rx, ry, wx, wy] with
+    | some [sx, sy, ex, ey, rx, ry, wx, wy] =>
+      let p := ArcParam.parameterize sqrtStandin (fun x => 90 * (1 - x)) (fun x => decide (sabs x ≤ (1 : Rat) / 100000000))
+        sx sy ex ey rx ry wx wy (la == "1") (sw == "1")
+      showRats [p.rx, p.ry, p.cx, p.cy, p.theta, p.delta]
+    | _ => "bad-args"
+  | _ => "bad-args"
+
 def handle (cmd : String) (args : List String) : String :=
   match cmd with
   | "polyroots01" =>
@@ -710,6 +731,10 @@ def handle (cmd : String) (args : List String) : String :=
       | some n => toString (Enclose.isContainedBy (c == "1") (b == "1") n)
       | none => "bad-args"
     | _ => "bad-args"
+  | "numlines" =>
+    match parseRats? args with
+    | some [len, chord] => toString (Enclose.numLines (fun q : Rat => q.ceil) len chord)
+    | _ => "bad-args"
   | "encloses" =>
     match args with
     | [n] => match n.toNat? with
@@ -783,6 +808,7 @@ def handle (cmd : String) (args : List String) : String :=
   | "stall_buggy" => runStall true args
   | "cubcache" => runCubCache false args
   | "cubcache_buggy" => runCubCache true args
+  | "arcparam" => runArcParam args
   | "lineline" => runLineLine args
   | "hull" => runHull args
   | "bezline" => runBezLine args
